@@ -208,22 +208,33 @@ structure Parts where
   body : List (Nat × List Str)
   term : List (List Str)
 
+/-- `from_stage = measure_start_tree_stages[from_measure - 1]` (Python list indexing: an index past the end raises) -/
+def startStageOf (d : Doc) (o : Opts) : Except Err Nat :=
+  let idx : Int := (o.fromM.getD 0) - 1
+  match d.starts[idx.toNat]? with
+  | some s => if idx < 0 then .error .other else .ok s
+  | none => .error .other
+
+/-- the recovered preamble of a range export: headers and open operators (backwards walk), then the signatures in force -/
+def preambleOf (d : Doc) (o : Opts) (fromStage toStage : Nat) : Except Err (List (List Str)) := do
+  let coords := (List.range ((d.stages[fromStage]?.getD []).length)).map (fun i => (fromStage, i))
+  let rows ← preambleLoop d o fromStage (d.stages.length + 1) coords []
+  let sigRows ← signatureRows d o fromStage toStage
+  pure (rows ++ sigRows)
+
+/-- start stage and preamble: `(0, [])` when the export starts at the beginning -/
+def fromPart (d : Doc) (o : Opts) : Except Err (Nat × List (List Str)) :=
+  if hasFrom o then do
+    let fs ← startStageOf d o
+    let pre ← preambleOf d o fs (toStageOf d o)
+    pure (fs, pre)
+  else pure (0, [])
+
 def exportParts (d : Doc) (o : Opts) : Except Err Parts := do
   validate d o
-  let toStage := toStageOf d o
-  let (fromStage, pre) ← (if hasFrom o then do
-      -- Python list indexing: an index past the end raises
-      let idx : Int := (o.fromM.getD 0) - 1
-      let fromStage ← (match d.starts[idx.toNat]? with
-        | some s => if idx < 0 then .error .other else pure s
-        | none => .error .other : Except Err Nat)
-      let coords := (List.range ((d.stages[fromStage]?.getD []).length)).map (fun i => (fromStage, i))
-      let rows ← preambleLoop d o fromStage (d.stages.length + 1) coords []
-      let sigRows ← signatureRows d o fromStage toStage
-      pure (fromStage, rows ++ sigRows)
-    else pure (0, []) : Except Err (Nat × List (List Str)))
-  let body ← bodyRows d o fromStage toStage
-  pure ⟨pre, body, terminatorFor o (pre ++ body.map (·.2))⟩
+  let fp ← fromPart d o
+  let body ← bodyRows d o fp.1 (toStageOf d o)
+  pure ⟨fp.2, body, terminatorFor o (fp.2 ++ body.map (·.2))⟩
 
 def Parts.rows (p : Parts) : List (List Str) := p.pre ++ p.body.map (·.2) ++ p.term
 
